@@ -163,7 +163,7 @@ func isString(t types.Type) bool {
 }
 
 var hostPkgs = map[string]bool{
-	"go/types": true, "go/constant": true, "regexp": true, "go/token": false,
+	"go/types": true, "go/constant": true, "regexp": true, "go/token": true,
 }
 
 // isHostNamed reports whether t is a named (non-basic) type of an environment-world package.
